@@ -57,6 +57,11 @@ Definition fround32 (c : Z) : Z := to_bits (of32 (to32 (of_bits c))).
 (* (double)z for an integer z (exact below 2^53, else nearest even) *)
 Definition f_of_Z (z : Z) : Z := to_bits (binary_normalize 53 1024 (eq_refl _) (eq_refl _) mode_NE z 0 false).
 
+(* (double)(float)z : one rounding to binary32, widened back exactly (since /repo 'fix: fold integer to float
+   conversions with a single rounding'; before, eval() computed fround32 (f_of_Z z), which rounds twice) *)
+Definition f32_of_Z (z : Z) : Z :=
+  to_bits (of32 (binary_normalize 24 128 (eq_refl _) (eq_refl _) mode_NE z 0 false)).
+
 (* truncation toward zero of a finite double; None for infinities and NaN *)
 Definition trunc_mag (m : positive) (e : Z) : Z :=
   if 0 <=? e then Zpos m * 2 ^ e else Zpos m / 2 ^ (- e).
